@@ -39,6 +39,14 @@ def build():
     u.env("chunk.rs")
     u.extracted_fn(conn, "get_sub_iovs_offset", loops=[SUB_LOOP],
                    hints=[(r'for len in', "assert(iov_lens.len() <= usize::MAX);")], contract=SUB_CONTRACT)
+    # ------------------------------------------------------------------ errno classification used by the loops (mod.rs)
+    modrs = Source("vhost/src/vhost_user/mod.rs")
+    fspan = modrs.impl_span(r'^impl std::convert::From<vmm_sys_util::errno::Error> for Error')
+    u.extracted_fn(modrs, "from", within=fspan, rename="error_from_errno",
+                   sig_rw=[("R10", r'vmm_sys_util::errno::Error', 'ErrnoError'), ("R3", r'-> Self', '-> Error')],
+                   body_rw=[("R10", r'IOError::from_raw_os_error\(([^)]+)\)', r'\1')],
+                   contract="""
+        ensures r == classify(err.e), // [C08:errno-classes] retry exactly for EAGAIN/EWOULDBLOCK, EINTR, ENOBUFS, ENOMEM; broken for ECONNRESET, EPIPE; the errno is carried unchanged""")
     span = conn.impl_span(r'^impl<H: MsgHeader> Endpoint<H>')
     u.raw("impl Endpoint {")
     # ------------------------------------------------------------------ sender
@@ -67,6 +75,8 @@ def build():
                 Ok(n) => n <= flat(views(iovs@)).len() && final(self).wire@ =~= old(self).wire@ + flat(views(iovs@)).subrange(0, n as int), // [C08:sender-in-order-once] the bytes put on the wire are exactly the first n bytes of hdr|body|payload, each once, in order, whatever part of each write the socket accepted
                 Err(_) => exists|k: int| 0 <= k <= flat(views(iovs@)).len() && final(self).wire@ =~= old(self).wire@ + flat(views(iovs@)).subrange(0, k), // [C08:sender-prefix-on-error] an error leaves a prefix on the wire, never a gap or a repetition
             },
+            r is Err ==> !(r->Err_0 is SocketRetry), // [C08:retry] a retry-class error is retried, never surfaced
+            (r is Ok && r->Ok_0 < flat(views(iovs@)).len()) ==> final(self).stalled@, // [C08:short-only-when-stalled] a short count is returned only after the socket accepted 0 bytes of a non-empty write
             final(self).calls@.len() >= old(self).calls@.len(),
             final(self).calls@.subrange(0, old(self).calls@.len() as int) =~= old(self).calls@,
             fds_first_byte_only(old(self).calls@.len() as int, final(self).calls@, old(self).wire@.len() as int, ofds(fds)), // [C08:fds-first-byte,C01] every sendmsg that starts at the message's first byte carries the caller's descriptors, every later one carries none""")
@@ -101,6 +111,8 @@ def build():
         requires forall|i: int| 0 <= i < old(iovs)@.len() ==> iov_ok(#[trigger] old(iovs)@[i]),   // safety contract of the unsafe fn: every iovec describes a live buffer (base + len does not wrap)
             sum_lens(lens(aviews(old(iovs)@)), old(iovs)@.len() as int) <= usize::MAX   // A-SUM
         ensures final(iovs)@ == old(iovs)@,
+            r is Err ==> !(r->Err_0 is SocketRetry), // [C08:retry]
+            (r is Ok && r->Ok_0.0 < flat(aviews(old(iovs)@)).len()) ==> final(self).eof@, // [C08:short-only-at-eof] fewer bytes than asked for only at end of stream: however the transport segments the bytes, the caller gets all of them
             match r {
                 Ok((n, files)) => n <= flat(aviews(old(iovs)@)).len() && final(self).pos@ == old(self).pos@ + n
                     && final(self).stored@ =~= old(self).stored@ + deliver(flat(aviews(old(iovs)@)).subrange(0, n as int), old(self).pos@) // [C08:receiver-reassembly] the k-th byte of the stream is stored at the k-th address of the caller's buffers, once, in order, however the transport split the message
@@ -108,6 +120,32 @@ def build():
                 Err(_) => exists|k: int| 0 <= k <= flat(aviews(old(iovs)@)).len() && final(self).pos@ == old(self).pos@ + k
                     && final(self).stored@ =~= old(self).stored@ + deliver(flat(aviews(old(iovs)@)).subrange(0, k), old(self).pos@), // [C08:receiver-prefix-on-error]
             }""")
+    # ------------------------------------------------------------------ recv_data (payload receive: loops until len bytes or end of stream)
+    u.extracted_fn(conn, "recv_data", within=span, prefix="#[verifier::exec_allows_no_decreases_clause]\n",
+                   body_rw=[("R19", r'vec!\[0u8; len\]', 'vec_zeroed(len)'),
+                            ("R20", r'rbuf\[data_read\.\.\]\.as_mut_ptr\(\) as \*mut c_void', 'tail_addr(&mut rbuf, data_read)'),
+                            ("R20", r'unsafe \{ self\.sock\.recv_with_fds\(&mut iovs, &mut \[\]\)\? \}', 'self.sock_recv_with_fds(&mut iovs, &mut [])?')],
+                   loops=[dict(kind="while", nth=0, text="""            invariant_except_break
+                data_read <= len,
+            invariant
+                rbuf@.len() == len, base_of(&rbuf) == b0, b0 + len <= usize::MAX,
+                self.pos@ == old(self).pos@ + data_read, data_read <= len,
+                self.stored@ =~= old(self).stored@ + deliver(Seq::new(data_read as nat, |k: int| b0 + k), old(self).pos@),
+                self.wire@ == old(self).wire@, self.calls@ == old(self).calls@,
+            ensures
+                rbuf@.len() == len, base_of(&rbuf) == b0, data_read <= len,
+                self.pos@ == old(self).pos@ + data_read,
+                self.stored@ =~= old(self).stored@ + deliver(Seq::new(data_read as nat, |k: int| b0 + k), old(self).pos@),
+                self.wire@ == old(self).wire@, self.calls@ == old(self).calls@,""")],
+                   hints=[(r'let mut data_read = 0;', "let ghost b0 = base_of(&rbuf);", "ghost"),
+                          (r'while data_read < len', "assert(deliver(Seq::new(0 as nat, |k: int| b0 + k), self.pos@) =~= Seq::empty());"),
+                          (r'data_read \+= bytes;', "assert(self.stored@ =~= old(self).stored@ + deliver(Seq::new(data_read as nat, |k: int| b0 + k), old(self).pos@));", "after")],
+                   contract="""
+        ensures
+            r is Err ==> old(self).pos@ <= final(self).pos@ <= old(self).pos@ + len, // [C08] an error consumes at most a prefix
+            r is Ok ==> r->Ok_0.0 <= len && r->Ok_0.1@.len() == len && final(self).pos@ == old(self).pos@ + r->Ok_0.0
+                && final(self).stored@ =~= old(self).stored@ + deliver(Seq::new(r->Ok_0.0 as nat, |k: int| base_of(&r->Ok_0.1) + k), old(self).pos@), // [C08:recv-data-reassembly] byte k of the stream is stored at element k of the returned buffer, for every segmentation of the payload
+            final(self).wire@ == old(self).wire@,""")
     u.raw("}")
     u.raw("fn main() {}\n} // verus!")
     return u
